@@ -44,6 +44,8 @@ def lib_loops(strb):
         (r"^strtoul$", None, strb, False),
         (r"^get_hashfn$", None, 18, False),
         (r"^arc4random_buf$", None, 258, False),
+        (r"^havoc_bytes$", None, 66, False),
+        (r"^strspn$", None, max(strb, 67), False),
         (r"^check_badsalt_chars$", None, strb, False),
         # yescrypt/scrypt base-64 helpers: 32-bit values are at most 6 chars; 64 salt
         # bytes are 22 groups of 3
